@@ -9,10 +9,14 @@ package main
 
 import (
 	"context"
+	"encoding/json"
 	"fmt"
 	"os"
+	"os/exec"
+	"path/filepath"
 	"runtime"
 	"sort"
+	"strconv"
 	"strings"
 	"sync"
 	"time"
@@ -149,6 +153,49 @@ func compileOp(o op) (m *xpath.Machine, out outcome) {
 		return nil, outcome{text: "ERR " + err.Error()}
 	}
 	return m, outcome{text: "MACHINE\n" + m.PrintMachine()}
+}
+
+// isolateChild: this process was started by freshProcess to do one operation of a case.
+var isolateChild = os.Getenv("VERIF_C06_ISOLATE") != ""
+
+// freshProcess re-creates the case from the generation part of its tape in a new process of this
+// binary and has it do operation (c,i) alone: fresh compile, fresh tree, nothing before it.
+func freshProcess(genTape []uint32, c, i int) (string, bool) {
+	dir := os.Getenv("VERIF_WORKDIR")
+	if dir == "" {
+		dir = os.TempDir()
+	}
+	tf := filepath.Join(dir, fmt.Sprintf("iso-%d.json", os.Getpid()))
+	b, _ := json.Marshal(genTape)
+	if err := os.WriteFile(tf, b, 0o644); err != nil {
+		return err.Error(), false
+	}
+	defer os.Remove(tf)
+	of := tf + ".out"
+	defer os.Remove(of)
+	cmd := exec.Command(os.Args[0], "-mode=one", "-file="+tf)
+	cmd.Env = append(os.Environ(), fmt.Sprintf("VERIF_C06_ISOLATE=%d:%d", c, i), "VERIF_C06_ISOLATE_OUT="+of, "GORACE=log_path="+filepath.Join(dir, "isochild")+" exitcode=0 atexit_sleep_ms=0")
+	done := make(chan struct{})
+	var out []byte
+	var err error
+	go func() { _, err = cmd.Output(); out, _ = os.ReadFile(of); close(done) }()
+	select {
+	case <-done:
+	case <-time.After(30 * time.Second):
+		if cmd.Process != nil {
+			cmd.Process.Kill()
+		}
+		<-done
+		return "timed out", false
+	}
+	for _, l := range strings.Split(string(out), "\n") {
+		if strings.HasPrefix(l, "ISOLATED ") {
+			if s, e := strconv.Unquote(strings.TrimPrefix(l, "ISOLATED ")); e == nil {
+				return s, true
+			}
+		}
+	}
+	return fmt.Sprintf("no answer (err=%v): %s", err, clip(string(out), 300)), false
 }
 
 // forceGC is the "garbage collection now" fault: a full collection, then every finalizer that the
@@ -337,6 +384,7 @@ func (w world) RunCase(t *tape.Tape, st *super.Stats) *super.Violation {
 	}
 	caseInProcess++
 	first := t.Draw(3) > 0
+	collide := false
 	if _, err := os.Stat("/lib/xpath/plugins"); err == nil {
 		fmt.Fprintln(os.Stderr, "C06: /lib/xpath/plugins exists; plugin loading is not simulated")
 		os.Exit(2)
@@ -354,6 +402,12 @@ func (w world) RunCase(t *tape.Tape, st *super.Stats) *super.Violation {
 		g.Focus = 1 + t.Draw(genxpath.NumFuncs())
 		first = false
 		inc("reach:case_with_focus_function")
+		if t.Rare(4) {
+			// every compilation of the case is a call of the focus function on literals from a tiny pool of
+			// look-alike strings (see genxpath.CollisionCall)
+			collide = true
+			inc("reach:case_with_look_alike_argument_tuples")
+		}
 	}
 	g.NoFuncs = first // keep the process's first function lookup for the concurrent phase
 	nShared := 1 + t.Draw(3)
@@ -368,7 +422,10 @@ func (w world) RunCase(t *tape.Tape, st *super.Stats) *super.Violation {
 				e = wt + " = " + g.Expr(1)
 			}
 		}
-		m, _ := compileOp(op{gram: 0, expr: e})
+		var m *xpath.Machine
+		if !isolateChild {
+			m, _ = compileOp(op{gram: 0, expr: e})
+		}
 		sharedExpr = append(sharedExpr, e)
 		shared = append(shared, m)
 		if m != nil {
@@ -392,7 +449,12 @@ func (w world) RunCase(t *tape.Tape, st *super.Stats) *super.Violation {
 				g.Ctx = tree.Root
 				e := "/" + strings.TrimPrefix(n.String(), "/")
 				if i := strings.Index(e, "["); i < 0 {
-					m, _ := compileOp(op{gram: 0, expr: e + " = 'x'"})
+					var m *xpath.Machine
+					if !isolateChild {
+						m, _ = compileOp(op{gram: 0, expr: e + " = 'x'"})
+					} else {
+						sharedExpr[0] = e + " = 'x'" // (the parent replaces it only when the expression compiles; so does every comparison of a plain path)
+					}
 					if m != nil {
 						sharedExpr[0], shared[0], sharedList[0] = e+" = 'x'", m, m.PrintMachine()+m.GetExpr()
 					}
@@ -413,11 +475,16 @@ func (w world) RunCase(t *tape.Tape, st *super.Stats) *super.Violation {
 			w0, w1, w2, w3 := 3, 4, 2, 1
 			if crowd {
 				w0, w1, w2, w3 = 0, 1, 0, 0
+			} else if collide {
+				w0, w1, w2, w3 = 3, 1, 4, 2
 			}
 			switch t.Pick(w0, w1, w2, w3) {
 			case 3:
 				// a machine nobody keeps: compiled, given to a context, forgotten while the context runs
 				o = op{kind: 3, ctx: t.Draw(len(tree.Nodes)), expr: g.Expr(2 + t.Draw(4))}
+				if collide {
+					o.expr = g.CollisionCall()
+				}
 				if t.Rare(3) {
 					o.failAt = 1 + t.Draw(4)
 				}
@@ -430,7 +497,14 @@ func (w world) RunCase(t *tape.Tape, st *super.Stats) *super.Violation {
 				if g.Focus > 0 {
 					wv = 3
 				}
-				switch t.Pick(6, 2, 1, wv) {
+				pk := t.Pick(6, 2, 1, wv)
+				if collide {
+					pk = 4
+				}
+				switch pk {
+				case 4:
+					o.expr = g.CollisionCall()
+					o.gram = 0
 				case 3:
 					o.expr = g.ArityVariant(t.Draw(6))
 					o.gram = 0
@@ -463,6 +537,44 @@ func (w world) RunCase(t *tape.Tape, st *super.Stats) *super.Violation {
 			}
 			progs[c] = append(progs[c], o)
 		}
+	}
+	// ---- fresh-process oracle (sampled): "in isolation" taken literally
+	freshSample := collide || t.Rare(16)
+	genTape := t.Recorded()
+	isolatedOne := func(tree2 *faulttree.Tree, c, i int) outcome {
+		o := progs[c][i]
+		tag := fmt.Sprintf("c%do%d", c, i)
+		switch o.kind {
+		case 0:
+			_, oc := compileOp(o)
+			return oc
+		case 1:
+			m, _ := compileOp(op{gram: 0, expr: sharedExpr[o.shared]})
+			return runOp(m, tree2, o, tag, false)
+		case 2:
+			var m *xpath.Machine
+			for k := i - 1; k >= 0; k-- {
+				if progs[c][k].kind == 0 {
+					m, _ = compileOp(progs[c][k])
+					break
+				}
+			}
+			return runOp(m, tree2, o, tag, false)
+		}
+		return runTemp(o, tree2, tag, false)
+	}
+	if isolateChild {
+		// this process exists to do ONE operation of the case and nothing else
+		var c, i int
+		fmt.Sscanf(os.Getenv("VERIF_C06_ISOLATE"), "%d:%d", &c, &i)
+		answer := "ISOLATED-BAD-INDEX\n"
+		if c >= 0 && c < len(progs) && i >= 0 && i < len(progs[c]) {
+			out := isolatedOne(faulttree.Generate(tape.Replay(treeSeg), "T"), c, i)
+			answer = "ISOLATED " + strconv.Quote(out.String()) + "\n"
+		}
+		// (standard output is silenced while a case runs: the answer goes to a file)
+		os.WriteFile(os.Getenv("VERIF_C06_ISOLATE_OUT"), []byte(answer), 0o644)
+		os.Exit(0)
 	}
 	strategy := t.Draw(5)
 	param := 1 + t.Draw(8)
@@ -768,6 +880,36 @@ func (w world) RunCase(t *tape.Tape, st *super.Stats) *super.Violation {
 					Detail: fmt.Sprintf("client %d operation %d, done alone on a fresh machine and a fresh tree, gives a different result after the case's history than before it (state outside the machine and the context is carried between runs)\n--- before:\n%s\n--- after:\n%s\n%s", c, i, clip(pre[c][i].String(), 1500), clip(want.String(), 1500), desc())}
 			} else if pre != nil {
 				inc("operations_checked_before_and_after_history")
+			}
+		}
+	}
+	if freshSample {
+		type ci struct{ c, i int }
+		var cand []ci
+		for c, p := range progs {
+			for i, o := range p {
+				if o.kind != 0 {
+					cand = append(cand, ci{c, i})
+				}
+			}
+		}
+		nfresh := 4
+		if collide {
+			nfresh = 10
+		}
+		for k := 0; k < nfresh && len(cand) > 0; k++ {
+			j := t.Draw(len(cand))
+			x := cand[j]
+			cand = append(cand[:j:j], cand[j+1:]...)
+			want, ok := freshProcess(genTape, x.c, x.i)
+			if !ok {
+				super.Trouble("fresh-process oracle: " + clip(want, 300))
+				continue
+			}
+			inc("operations_checked_against_a_fresh_process")
+			if got := results[x.c][x.i].String(); got != want {
+				return &super.Violation{Class: "divergence", Sig: "divergence|fresh-process|run",
+					Detail: fmt.Sprintf("client %d operation %d differs from the same operation done alone in a fresh process (the process's earlier compilations and runs left something behind that changes results)\n--- in this process:\n%s\n--- in a fresh process:\n%s\n%s", x.c, x.i, clip(got, 1500), clip(want, 1500), desc())}
 			}
 		}
 	}
